@@ -130,6 +130,8 @@ def run_check(family, pid: str, tier: str, seed: int) -> int:
         family.run(ctx, fr, model_available=model_ok_for_cases)
     except Exception:
         fr.errors.append('family crashed: ' + traceback.format_exc()[-3000:])
+    if os.environ.get('VERIF_SHOW_ALL'):
+        for dg in fr.disagreements[:5]: print('  disagreement:', json.dumps(dg, default=str)[:1800], file=sys.stderr)
     T_ok = not fr.disagreements and not fr.errors and model_ok_for_cases and not [m for m in family.gen_modules if not ctx.translate_report.get(m, {}).get('ok')]
 
     findings = [f for f in load_findings() if f['property'] == pid]
